@@ -296,8 +296,25 @@ func (w *World) Apply(ev string) (enabled bool, err error) {
 			return false, nil
 		}
 		return true, w.Deliver()
+	case "y":
+		if len(w.N.Queue) != 0 {
+			return false, nil // relays are only explored on a caught-up wallet (DESIGN §5 C09)
+		}
+		tx, ok := w.RelayContent(p[1], w.Ledger())
+		if !ok {
+			return false, nil
+		}
+		w.Relayed = append(w.Relayed, tx)
+		w.RelayedKind = append(w.RelayedKind, p[1])
+		w.N.Relay(tx)
+		// delivered at once: whether a lagging wallet takes notice of a relay is an
+		// implementation choice C09 does not constrain ("known" transactions only)
+		return true, w.Deliver()
 	case "x":
 		txs, ok := w.Content(p[1], w.Ledger())
+		if !ok {
+			txs, ok = w.PendingBlockContent(p[1], w.Ledger())
+		}
 		if !ok {
 			return false, nil
 		}
